@@ -150,6 +150,149 @@ CLAIMED = {
         'ten iterations and the original restored. Exploration level.',
         'No grow/shrink in these histories (see DESIGN soundness note 7).',
         'DESIGN.md section 3 C11'),
+    'C03': (
+        'workerloop+simpool',
+        'Hypothesis-generated task streams through the real Worker.workloop '
+        '(in-process) parsed by an independent grammar recogniser; generated '
+        'cancel/ack orders on ApplyResult; simulator histories for the parent side',
+        'Generated task sequences (succeeding, raising ordinary or base '
+        'exceptions, unserialisable results, refused by the parent), quotas and '
+        'SYN answers are fed to the real worker loop and its message stream must '
+        'match the grammar (ACK with real pid and accept time, then exactly one '
+        'READY with the same ids unless refused; refused tasks never executed nor '
+        'counted; quota respected; recycle status iff quota reached). The parent '
+        'runs the accept callback before the result callback with the ACK\'s '
+        '(pid, time) and records the accepting worker as owner; a job cancelled '
+        'before acceptance is answered NACK and not accepted. Exploration level.',
+        'Worker loop runs in a helper thread (no fork/signals); the executing '
+        'process pid == handle owner is checked with real pools in C09 part real.',
+        'DESIGN.md section 3 C03, section 2 E2'),
+    'C08': (
+        'realpool',
+        'Hypothesis-generated scenarios on real pools in watchdogged child '
+        'processes; hangs diagnosed from faulthandler stack dumps',
+        'Generated scenarios (pool size 1-4, threads on/off, workers idle / inside '
+        'task code / inside a task swallowing BaseException, 0-8 queued jobs; '
+        'terminate, terminate twice, del+gc, terminate_job, operator SIGTERM proven '
+        'to land inside the task) run on real pools: terminate() returns within '
+        'the bound, afterwards no worker process and no pool thread is left, '
+        'results delivered before stay intact, repeated calls raise nothing; a '
+        'signalled worker leaves the pool, runs its exit callback and starts no '
+        'further task. Exploration level on OS-chosen schedules.',
+        'Bounds: terminate <= 45 s (normal ~7 s with a job in flight), watchdog '
+        '75 s; a watchdog kill counts only when the main thread is inside '
+        'terminate().',
+        'DESIGN.md section 3 C08, section 2 E3'),
+    'C12': (
+        'unit+workerloop',
+        'Hypothesis-generated exception types/args/traceback depths and pickle '
+        'round-trip counts (round-trip + metamorphic oracle); generated task '
+        'streams through the real worker loop for unserialisable results',
+        'For generated exception types (incl. BaseException subclasses), argument '
+        'tuples, traceback depths 1..400 and unbounded recursion, and 1-5 pickle '
+        'round trips, ExceptionInfo keeps type, args, traceback text naming the '
+        'raising frame and a bounded traceback object the traceback module can '
+        'format, unchanged by further trips; results unpicklable at nesting depth '
+        '0-5 yield exactly one MaybeEncodingError READY and the loop goes on. '
+        'Exploration level.',
+        'The worker loop runs in a helper thread of the checking process.',
+        'DESIGN.md section 3 C12'),
+    'C13': (
+        'faultio+real pipes',
+        'Hypothesis-generated message lists, source objects, offsets and a '
+        'fault plan for fake read/write syscalls (short transfers, EINTR, peer '
+        'close at any byte) vs an independently written reference framing; the '
+        'same scripts over real pipes/socket pairs with shrunken buffers',
+        'The real Connection code runs over injected syscalls: the wire equals '
+        'the reference encoding, every message is received intact and in order, '
+        'clean EOF vs cut inside a message, maxlength and BufferTooShort '
+        'behaviour, and rejection of invalid offsets / closed / wrong-direction '
+        'handles before any I/O are checked; real-kernel runs add natural '
+        'fragmentation up to multi-megabyte messages. Exploration level.',
+        'Syscalls are injected through Connection._send/_recv default arguments; '
+        'lengths >= 2 GiB and non-blocking descriptors are out of reach.',
+        'DESIGN.md section 3 C13'),
+    'C15': (
+        'unit+processes',
+        'Hypothesis-generated create/write/drop/recreate histories over all type '
+        'codes vs a model dict; child round trips under fork/spawn/forkserver; '
+        'contended locked increments with an exact total',
+        'Generated histories of shared Value/Array objects (12 type codes, ctypes '
+        'types, a Structure, lock variants, recycled dirty storage) are checked '
+        'against a model for initial contents, zero fill, isolation and disjoint '
+        'addresses; writes cross process boundaries both ways under every start '
+        'method; P processes x M locked increments lose no update. Exploration.',
+        'Lost updates under a broken lock depend on the OS schedule; one forced '
+        'interleaving per run makes the basic exclusion deterministic.',
+        'DESIGN.md section 3 C15'),
+    'C17': (
+        'detsched',
+        'Harness-owned scheduler at semaphore-operation granularity running the '
+        'real Condition/Event code over simulated semaphores: exhaustive DFS of '
+        'all schedules of small programs + Hypothesis-generated programs and '
+        'schedules; oracle = acceptance by a nondeterministic specification '
+        'automaton; real Lock/RLock/Semaphore across processes',
+        'All schedules (including a timeout firing at any moment) of every '
+        '2-thread program with <=2 operations per thread, and of 3-thread '
+        'one-operation programs, are enumerated over the real '
+        'billiard.synchronize.Condition and Event; larger programs and schedules '
+        'are generated. Traces must be accepted by the specification (no lost or '
+        'double-counted wake-up, notify wakes at most one, timed-out wait returns '
+        'False and leaves the condition consistent, Event.wait/set/clear '
+        'linearisable). Real primitives: holders never exceed the count, bounded '
+        'over-release raises, RLock needs k releases. Small scopes exhaustive, '
+        'the rest exploration.',
+        'The simulated semaphore is the specification of a counting semaphore; '
+        'DFS uses sleep sets over an independence relation validated against '
+        'full enumeration; the C SemLock is exercised only by the real part.',
+        'DESIGN.md section 3 C17, section 2 E4'),
+    'C18': (
+        'unit+sockets',
+        'Hypothesis-generated key pairs (equal, one bit apart, prefixes, long) '
+        'over pipes and AF_UNIX/AF_INET listeners, and a hostile peer deviating '
+        'at each handshake step, against an independent HMAC implementation',
+        'Both sides obtain a usable connection iff the keys are equal, otherwise '
+        'both raise AuthenticationError; every deviation of a hostile peer '
+        '(wrong, truncated, empty, oversized or replayed digest, out-of-turn '
+        'verdict, malformed challenge) is refused; challenges are pairwise '
+        'distinct; non-bytes keys raise TypeError. Exploration level.',
+        'HMAC-equivalent unequal keys authenticate (open known finding D17, '
+        'inherent to HMAC); excluded by construction and replayed.',
+        'DESIGN.md section 3 C18'),
+    'C19': (
+        'processes',
+        'Exhaustive enumeration of exit paths (54 fatal signals, exit codes) x '
+        'start methods plus Hypothesis-generated parent-side poll/join scripts '
+        'on real child processes; the end of a child is observed independently '
+        'through /proc',
+        'Children that return, raise, call sys.exit(n), kill themselves with any '
+        'fatal signal or are killed externally are started under fork, spawn and '
+        'forkserver; generated scripts poll exitcode/is_alive/active_children and '
+        'join with timeouts before, around and after the exit: exit codes are '
+        '0/1/n/-s (non-zero under forkserver), None/alive until the end, timed '
+        'joins return in time, joined children leave active_children, a second '
+        'start() or a start() from a non-creator raises. Signals and edge exit '
+        'codes are enumerated exhaustively; scripts are exploration level.',
+        'join(timeout) slack is 3 s on a loaded box; forkserver children are '
+        'not asserted on between release and disappearance from /proc.',
+        'DESIGN.md section 3 C19'),
+    'C20': (
+        'manager',
+        'Hypothesis-generated operation histories on proxies vs local model '
+        'objects (differential), concurrent clients with exact effect counts, '
+        'proxy lifecycle histories vs a reference count model, generated wrong '
+        'keys',
+        'Histories over list/dict/Namespace/Value/Array/Lock/Queue proxies (and '
+        'the other registered types incl. Pool/Iterator, Event, Semaphore, '
+        'Condition, Barrier) issued from the main process, client threads and '
+        'forked clients are compared call by call with local objects, referent '
+        'exceptions included; N clients x M operations leave exactly NxM '
+        'effects; after every create/copy/hand-over/drop step the server holds '
+        'exactly the referents with a live proxy; wrong keys are refused with no '
+        'request served. Exploration level.',
+        'Atomicity of concurrent operations is observed under OS-chosen '
+        'schedules; clients are fork-context only.',
+        'DESIGN.md section 3 C20'),
 }
 
 NOT_YET = 'check not built yet in this session (planned, see DESIGN.md section 3)'
